@@ -473,3 +473,65 @@ Example C08_reachable_names_valid_nonvacuous :
   let d := fst (drun init_dstate [ex_create ex_fg; ex_put 97 102]) in
   dreach d /\ map fst (ds_mem d) = [ex_name] /\ valid_table_nameb ex_name = true.
 Proof. exact dreach_names_valid_nonvacuous. Qed.
+
+(* ---- definition files: <name>.table.proto (written as <name>.table.proto.tmp and renamed) lies
+        beside the directory <name>/; it is never the directory of a table nor inside one ---- *)
+Theorem C08_definition_files_apart : forall n1 n2, valid_table_name n1 -> valid_table_name n2 ->
+  n1 ++ s_table_proto <> n2
+  /\ ~ has_prefix (n1 ++ s_table_proto) (n2 ++ s_slash1) = true
+  /\ n1 ++ s_table_proto_tmp <> n2
+  /\ ~ has_prefix (n1 ++ s_table_proto_tmp) (n2 ++ s_slash1) = true.
+Proof. exact definition_files_apart. Qed.
+Print Assumptions C08_definition_files_apart.
+
+Theorem C08_reachable_definition_files_apart : forall d n1 n2, dreach d ->
+  In n1 (map fst (ds_mem d)) -> In n2 (map fst (ds_mem d)) ->
+  n1 ++ s_table_proto <> n2
+  /\ ~ has_prefix (n1 ++ s_table_proto) (n2 ++ s_slash1) = true
+  /\ n1 ++ s_table_proto_tmp <> n2
+  /\ ~ has_prefix (n1 ++ s_table_proto_tmp) (n2 ++ s_slash1) = true.
+Proof. exact dreach_definition_files_apart. Qed.
+Print Assumptions C08_reachable_definition_files_apart.
+
+(* different tables have different definition files, and no temporary is another's definition *)
+Theorem C08_definition_files_distinct : forall n1 n2 : bytes,
+  (n1 ++ s_table_proto = n2 ++ s_table_proto -> n1 = n2)
+  /\ (n1 ++ s_table_proto_tmp = n2 ++ s_table_proto_tmp -> n1 = n2)
+  /\ n1 ++ s_table_proto_tmp <> n2 ++ s_table_proto.
+Proof. exact definition_files_distinct. Qed.
+Print Assumptions C08_definition_files_distinct.
+
+(* a table id has 1 to 50 characters and is not a definition-file name *)
+Theorem C08_valid_tid_bounded : forall t, valid_tid t = true -> (1 <= length t <= 50)%nat.
+Proof. exact valid_tid_bounded. Qed.
+Print Assumptions C08_valid_tid_bounded.
+
+Theorem C08_valid_tid_not_definition_file : forall t, valid_tid t = true ->
+  has_suffix t s_table_proto = false /\ has_suffix t s_table_proto_tmp = false.
+Proof. exact valid_tid_not_definition_file. Qed.
+Print Assumptions C08_valid_tid_not_definition_file.
+
+Theorem C08_reachable_tid_bounded : forall d n, dreach d -> In n (map fst (ds_mem d)) ->
+  exists parent tid, n = table_name parent tid /\ valid_parent parent = true /\ valid_tid tid = true
+                     /\ (1 <= length tid <= 50)%nat.
+Proof. exact dreach_tid_bounded. Qed.
+Print Assumptions C08_reachable_tid_bounded.
+
+Example C08_tid_length_and_suffix :
+  valid_tid ex_tid50 = true /\ valid_tid ex_tid51 = false                        (* 50 and 51 characters *)
+  /\ valid_tid (ex_tid ++ s_table_proto) = false                                 (* t1.table.proto *)
+  /\ valid_tid (120%N :: s_table_proto_tmp) = false                              (* x.table.proto.tmp *)
+  /\ valid_tid (97%N :: s_table_proto ++ [120%N]) = true                         (* a.table.protox *)
+  /\ valid_tid (ex_tid ++ s_table_proto ++ [46%N; 116%N]) = true                 (* t1.table.proto.t *)
+  /\ valid_table_nameb (table_name ex_parent ex_tid ++ s_table_proto) = false.
+Proof. exact ex_tid_length_and_suffix. Qed.
+
+(* on the disk engine: with t1 registered, CreateTable "t1.table.proto" and a 51-character id are
+   refused, nothing is written (no crash point), the state is unchanged *)
+Example C08_create_definition_file_rejected :
+  let d := fst (drun init_dstate [mkCall (BCreateTable ex_parent ex_tid []) 0%Z []]) in
+  dreach d /\ ds_mem d <> []
+  /\ dstep d (mkCall (BCreateTable ex_parent (ex_tid ++ s_table_proto) []) 0%Z []) = (d, fail cInvalidArgument, [])
+  /\ dstep d (mkCall (BCreateTable ex_parent ex_tid51 []) 0%Z []) = (d, fail cInvalidArgument, [])
+  /\ br_code (snd (fst (dstep d (mkCall (BCreateTable ex_parent ex_tid50 []) 0%Z [])))) = cOK.
+Proof. split; [apply drun_dreach; apply DR_init|]. vm_compute. repeat split. discriminate. Qed.
